@@ -69,6 +69,13 @@ CLAIMED["C17"] = dict(
     technique="bounded-exhaustive request-sequence enumeration with a whole-database dump invariant and an SQL statement monitor",
     design_ref="§4 C17")
 
+CLAIMED["C14"] = dict(
+    category="model_checking", engine="vsched",
+    text="Schedule exploration of request PAIRS on one instrumented engine over a fixed store: every multiset of 2 requests from {check x3 (shared sub-graph, cyclic data), batch check, expand} under two configurations (a && !b, b || traverse), all interleavings up to deviation bound 1 (thorough 2) with storage calls as scheduling points; each request's answer must lie in the outcome set the same request produces alone over all schedules to the same bound. Complement: the same kinds of requests free-running under the Go race detector against the sqlite registry and its REST/gRPC servers, concurrent first requests on fresh registries and mixed with writes; every distinct race report is a violation keyed by the top keto frames of both accesses.",
+    note="The -race pass is not exhaustive (stated in evidence); cooperative scheduling cannot see data races; bounds: 2 concurrent requests, deviation bound.",
+    technique="deviation-bounded stateless schedule exploration of concurrent requests on the instrumented implementation (differential against solo runs) + free-running race-detector pass",
+    design_ref="§4 C14")
+
 NOT_YET = "check not built yet in this revision (work in progress; see DESIGN.md §4 for the planned model-checking design)"
 
 
